@@ -7,7 +7,7 @@ Regenerated (the C10 theorems are re-proved against these on every run):
   * the idempotence guard of DataConnection.disconnect         -> GUARD_<STATE>
   * the state on which Network unregisters a peer connection   -> REGISTRY_REMOVE_ON_<STATE>
   * presence of constructs, each with the behaviour the model gives to its absence:
-      ACCEPT_CONNECTED_BEFORE_HANDLER, CONNECT_RECHECKS_STATE, CONNECT_CLOSES_ON_CANCEL, ATTEMPT_CLOSES_ON_CANCEL,
+      ACCEPT_CONNECTED_BEFORE_HANDLER, CONNECT_RECHECKS_STATE, CONNECT_FAILURE_CATCHES_ALL, CONNECT_CLOSES_ON_CANCEL, ATTEMPT_CLOSES_ON_CANCEL,
       DISCONNECT_CLOSED_IN_FINALLY, READER_RECHECKS_CLOSING, SEND_SKIPS_WHEN_CLOSING, SEND_FAILURE_DISCONNECT_DETACHED
 Shape-checked, fail closed (Refuse = broken tie): everything else the model relies on in those functions: the order
 CONNECTING / open_connection / CONNECTED in connect(), the failure handler of connect(), CLOSING before writer.close()
@@ -144,16 +144,20 @@ def translate(src: Path) -> dict:
            and 'await asyncio.open_connection(self.hostname, self.port)' in tb[0], f'connect: try body changed: {tb}')
     closes_on_cancel = False
     failure_ok = False
+    catches_all = False
     for h in tr.handlers:
         names = handler_names(h)
         hb = [U(s) for s in h.body]
         if any(n in ('asyncio.CancelledError', 'BaseException') for n in names):
             expect(hb[-1] == 'raise', 'connect: the CancelledError handler must re-raise')
             closes_on_cancel = 'await self.disconnect(CloseReason.CONNECT_FAILED)' in hb
-        elif 'Exception' in names:
+        elif set(names) <= {'Exception', 'OSError', 'asyncio.TimeoutError', 'TimeoutError', 'ConnectionError'}:
             expect(hb[0] == 'await self.disconnect(CloseReason.CONNECT_FAILED)' and hb[-1].startswith('raise ConnectionFailedError('),
                    f'connect: failure handler changed: {hb}')
+            expect(not failure_ok, 'connect: more than one failure handler')
             failure_ok = True
+            catches_all = 'Exception' in names
+            expect(any(n in ('OSError', 'Exception') for n in names), 'connect: the failure handler does not cover OSError')
         else:
             raise Refuse(f'connect: unexpected handler {names}')
     expect(failure_ok, 'connect: no handler for Exception / TimeoutError')
@@ -173,6 +177,9 @@ def translate(src: Path) -> dict:
     expect(streams_assigned and sum(1 for s in rest if 'set_state' in s) == 1, f'connect: else branch changed: {ou}')
     out.append(f'Definition CONNECT_CLOSES_ON_CANCEL : bool := {"true" if closes_on_cancel else "false"}.\n')
     out.append(f'Definition CONNECT_RECHECKS_STATE : bool := {"true" if rechecks else "false"}.\n')
+    out.append('(* does the failure handler of connect() cover every exception open_connection can raise (OverflowError for a port\n'
+               '   > 65535, UnicodeError for a host name that cannot be encoded, ...) or only OSError / timeout? *)\n')
+    out.append(f'Definition CONNECT_FAILURE_CATCHES_ALL : bool := {"true" if catches_all else "false"}.\n')
 
     # ---- DataConnection.disconnect
     db = body(find_func(dc.body, 'disconnect'))
